@@ -125,6 +125,29 @@ func GLVScalars(full bool) []Val {
 			}
 		}
 	}
+	// (iv) both halves non-zero with zero digits at the SAME positions: a window loop that defers, batches or skips work
+	// for all-zero positions (of both halves together) takes its special path only here - trailing zero bytes, leading
+	// zero bytes, a zero byte / nibble in the middle
+	for _, t := range []uint{1, 2, 7, 15} {
+		sh := 8 * t
+		for _, ab := range [][2]int64{{3, 5}, {0x1ff, 0x101}, {-7, 0xb}, {0x80, -0x11}} {
+			if t == 15 && (ab[0] > 255 || ab[0] < -255 || ab[1] > 255) {
+				continue
+			}
+			k1 := new(big.Int).Lsh(big.NewInt(ab[0]), sh)
+			k2 := new(big.Int).Lsh(big.NewInt(ab[1]), sh)
+			s.add(fmt.Sprintf("shared zero digits: k1 = %d*256^%d, k2 = %d*256^%d (trailing zero bytes in both halves)", ab[0], t, ab[1], t), comb(k1, k2))
+		}
+	}
+	for _, mid := range []uint{1, 8, 14} {
+		hi := new(big.Int).Lsh(big.NewInt(0x5), 8*(mid+1))
+		k1 := new(big.Int).Add(hi, big.NewInt(0x3))
+		k2 := new(big.Int).Add(new(big.Int).Lsh(big.NewInt(0x9), 8*(mid+1)), big.NewInt(0xb))
+		s.add(fmt.Sprintf("shared zero digits: bytes 1..%d zero in both halves (k1 = 5*256^%d + 3, k2 = 9*256^%d + 11)", mid, mid+1, mid+1), comb(k1, k2))
+		s.add(fmt.Sprintf("shared zero digits: bytes 1..%d zero in both halves, k2 negative", mid), comb(k1, new(big.Int).Neg(k2)))
+	}
+	s.add("shared zero digits: low nibble zero in both halves (k1 = 0x30, k2 = 0x50)", comb(big.NewInt(0x30), big.NewInt(0x50)))
+	s.add("shared zero digits: short halves (k1 = 3, k2 = 5: fifteen leading zero bytes)", comb(big.NewInt(3), big.NewInt(5)))
 	// halves just below / at / above 2^127 and 2^128 - 1 (as far as the lattice admits them)
 	for _, h := range []*big.Int{new(big.Int).Sub(p2(127), one), p2(127), new(big.Int).Sub(p2(128), one), new(big.Int).Sub(p2(120), one), p2(120)} {
 		s.add(fmt.Sprintf("k1 = %x, k2 = 1", h), comb(h, one))
@@ -190,7 +213,7 @@ func GLVVerifierSubset(th bool) []Val {
 			if !th && !(strings.Contains(l, "m=ffffffffffffffff,") || strings.Contains(l, "m=0,") || gi%7 == 0) {
 				continue
 			}
-		case strings.HasPrefix(l, "GLV corner"):
+		case strings.HasPrefix(l, "GLV corner"), strings.HasPrefix(l, "shared zero digits"):
 		case strings.HasPrefix(l, "k1 = 0, k2 =") || strings.HasSuffix(l, ", k2 = 0") || strings.HasPrefix(l, "k1 = k2") || strings.HasPrefix(l, "k1 = -k2"):
 			if !th && !(strings.HasSuffix(l, "16^0") || strings.HasSuffix(l, "16^0, k2 = 0") || strings.Contains(l, "16^31") || strings.Contains(l, "16^16")) {
 				continue
